@@ -311,6 +311,8 @@ func createJSONAndEvalFunctions(c *Config) {
 		MaxArgs:  1,
 		ArgTypes: []object.Type{object.STRING},
 		Help:     "filename (.gr)",
+		// They read and write files and the whole state: never a function of their arguments.
+		DontCache: true,
 	}
 	if c.HasSave {
 		loadSaveFn.Name = "save"
